@@ -21,6 +21,7 @@ from __future__ import annotations
 
 import ast
 import inspect
+import os
 import textwrap
 
 from vf.coqlit import cbool, clist, cstr
@@ -36,6 +37,11 @@ READERS = [
 
 MUTATORS = {"append", "extend", "insert", "pop", "remove", "clear", "update", "setdefault", "add", "discard",
             "popitem", "sort", "reverse", "appendleft", "popleft", "__setitem__", "__delitem__"}
+
+
+class Hazard(Unsupported):
+    """something the recogniser DID understand and that the probes cannot clear (fail closed even when the observed
+    behaviour on the probes looks fine)"""
 
 
 def _fdef(fn):
@@ -230,6 +236,11 @@ def reader_sites(fn):
                 raise Unsupported("a yield is reachable for descriptors in %s" % _where(fn, y))
             if cls == "Record" and branch == "orelse":
                 kind = "plain"
+        if not any(_isinstance_of(ifn.test) and _isinstance_of(ifn.test)[1] == "Record" for ifn, _ in chain):
+            for n in ast.walk(node):
+                if isinstance(n, ast.Call) and _isinstance_of(n) and _isinstance_of(n)[1] == "Record":
+                    raise Unsupported("cannot tell which decoded objects reach the yield in %s (it is outside the "
+                                      "isinstance(.., Record) dispatch)" % _where(fn, y))
         sites.append(dict(kind=kind, guard=guard, same=bool(same), stops=bool(stops), line=y.lineno))
     # the selector may be consulted by the guards only (nothing else in the loop may depend on it)
     in_guards = {id(n) for t in guard_tests for n in ast.walk(t)}
@@ -238,7 +249,7 @@ def reader_sites(fn):
             raise Unsupported("self.selector is used outside a yield guard in %s" % _where(fn, n))
     for n in ast.walk(node):
         if isinstance(n, (ast.Break, ast.Return)) and id(n) not in accounted:
-            raise Unsupported("`%s` in the reader loop %s" % (type(n).__name__.lower(), _where(fn, n)))
+            raise Hazard("`%s` in the reader loop %s" % (type(n).__name__.lower(), _where(fn, n)))
     sites.sort(key=lambda s: s["line"])
     return sites
 
@@ -247,7 +258,7 @@ def _site_term(s):
     return "{| s_guard := %s; s_tested_same := %s; s_nonmatch_stops := %s |}" % (s["guard"], cbool(s["same"]), cbool(s["stops"]))
 
 
-def reader_shape(short, fn):
+def _ast_reader_shape(short, fn):
     sites = reader_sites(fn)
     recs = [s for s in sites if s["kind"] == "record"]
     plains = [s for s in sites if s["kind"] == "plain"]
@@ -255,8 +266,211 @@ def reader_shape(short, fn):
         raise Unsupported("%s has %d yield sites for records (expected exactly one)" % (fn.__qualname__, len(recs)))
     if len(plains) > (1 if short == "json" else 0):
         raise Unsupported("%s has %d yield sites for non-record objects" % (fn.__qualname__, len(plains)))
-    return "{| on_record := %s; on_plain := %s |}" % (
-        _site_term(recs[0]), ("Some " + _site_term(plains[0])) if plains else "None")
+    strip = lambda d: dict(guard=d["guard"], same=d["same"], stops=d["stops"])  # noqa: E731
+    return dict(on_record=strip(recs[0]), on_plain=strip(plains[0]) if plains else None)
+
+
+# ---- observed filter behaviour of a reader: scripted, logging selector stubs on purpose-built inputs
+
+class _Boom(Exception):
+    pass
+
+
+class _Stub:
+    """a selector object (make_selector passes any truthy object through): logs what it is asked, answers by script"""
+
+    def __init__(self, script, keyfn):
+        self.script, self.keyfn, self.asked = script, keyfn, []
+
+    def match(self, rec):
+        self.asked.append(rec)
+        v = self.script.get(self.keyfn(rec), True)
+        if v == "raise":
+            raise _Boom()
+        return v
+
+
+def _probe_input(short, workdir):
+    """-> (open_reader(selector) -> reader object, key function, set of keys of plain-JSON objects)"""
+    import datetime as dt
+    import os
+
+    from flow.record import RecordDescriptor, RecordWriter
+    ts = dt.datetime(2020, 1, 1, tzinfo=dt.timezone.utc)
+    P1 = RecordDescriptor("probe/one", [("varint", "n"), ("string", "s")])
+    P2 = RecordDescriptor("probe/two", [("varint", "n"), ("string", "t")])
+    plain = set()
+    if short in ("avro", "csv"):
+        recs = [P1(n=i, s="v%d" % i, _generated=ts) for i in range(7)]
+    elif short == "sqlite":
+        recs = [P1(n=i, s="v", _generated=ts) for i in range(5)] + [P2(n=10 + i, t="w", _generated=ts) for i in range(4)]
+    else:
+        recs = [(P1(n=i, s="v", _generated=ts) if i % 3 != 1 else P2(n=i, t="w", _generated=ts)) for i in range(7)]
+    ext = dict(stream=".records", json=".json", avro=".avro", csv=".csv", sqlite=".db")[short]
+    scheme = dict(stream="", json="jsonfile://", avro="avro://", csv="csvfile://", sqlite="sqlite://")[short]
+    path = os.path.join(workdir, "probe" + ext)
+    w = RecordWriter(scheme + path)
+    try:
+        for r in recs:
+            w.write(r)
+        w.flush()
+    finally:
+        w.close()
+    if short == "json":
+        lines = open(path).read().split("\n")[:-1]
+        mk = lambda k: '{"n": %d, "s": "p", "_generated": "2020-01-01T00:00:00+00:00"}' % k  # noqa: E731
+        recpos = [i for i, ln in enumerate(lines) if '"recorddescriptor"' not in ln.split("_data")[0] or '"_type": "record"' in ln]
+        # plain objects first, in the middle (after a record line) and last
+        mid = recpos[len(recpos) // 2] + 1
+        lines = [mk(100)] + lines[:mid] + [mk(101)] + lines[mid:] + [mk(102)]
+        open(path, "w").write("\n".join(lines) + "\n")
+        plain = {100, 101, 102}
+
+    def open_reader(selector):
+        if short == "stream":
+            from flow.record.stream import RecordStreamReader
+            fp = open(path, "rb")
+            return RecordStreamReader(fp, selector=selector), fp
+        if short == "json":
+            from flow.record.adapter.jsonfile import JsonfileReader
+            return JsonfileReader(path, selector=selector), None
+        if short == "avro":
+            from flow.record.adapter.avro import AvroReader
+            return AvroReader(path, selector=selector), None
+        if short == "csv":
+            from flow.record.adapter.csvfile import CsvfileReader
+            return CsvfileReader(path, selector=selector), None
+        from flow.record.adapter.sqlite import SqliteReader
+        return SqliteReader(path, batch_size=2, selector=selector), None
+
+    return open_reader, (lambda rec: int(rec.n)), plain
+
+
+def _run_reader(open_reader, selector):
+    rd, fp = open_reader(selector)
+    out, err = [], None
+    try:
+        try:
+            for r in rd:
+                out.append(r)
+        except _Boom:
+            err = "Boom"
+    finally:
+        try:
+            rd.close()
+        except Exception:  # noqa
+            pass
+        if fp is not None:
+            fp.close()
+    return out, err
+
+
+def observe_reader(short):
+    """-> dict(on_record=site, on_plain=site|None); Unsupported when the behaviour on the probes fits no shape"""
+    import shutil
+    import tempfile
+
+    from flow.record import Record
+    base = os.environ.get("VERIF_PROBE_DIR") or "/verif/.work"
+    os.makedirs(base, exist_ok=True)
+    workdir = tempfile.mkdtemp(prefix="c10probe.", dir=base)
+    try:
+        open_reader, keyfn, plain = _probe_input(short, workdir)
+        unf, err = _run_reader(open_reader, None)
+        if err or not unf or not all(isinstance(r, Record) for r in unf):
+            raise Unsupported("%s probe: the unfiltered reading failed" % short)
+        K = [keyfn(r) for r in unf]
+        if len(set(K)) != len(K):
+            raise Unsupported("%s probe: keys are not unique" % short)
+        if short == "json" and not plain <= set(K):
+            plain = plain & set(K)
+        L = len(K)
+        first, mid, last = K[0], K[L // 2], K[-1]
+        scripts = [
+            {}, {k: False for k in K}, {first: False}, {mid: False}, {last: False},
+            {k: (k in (first,)) for k in K}, {k: (k in (mid,)) for k in K}, {k: (k in (last,)) for k in K},
+            {k: (i % 2 == 0) for i, k in enumerate(K)}, {k: (i % 2 == 1) for i, k in enumerate(K)},
+            {first: "raise"}, {mid: "raise"}, {last: "raise"}, {K[1]: False, mid: "raise"},
+        ]
+        for pk in sorted(plain):
+            scripts += [{pk: False}, {k: (k == pk) for k in K}, {pk: "raise"}]
+        group = {k: ("plain" if k in plain else "record") for k in K}
+        observed = []
+        for sc in scripts:
+            stub = _Stub(sc, keyfn)
+            got, err = _run_reader(open_reader, stub)
+            if not all(isinstance(r, Record) for r in stub.asked) or not all(isinstance(r, Record) for r in got):
+                raise Unsupported("%s probe: the selector was asked about / the reader yielded something that is not a record" % short)
+            observed.append((sc, stub.asked, got, err))
+
+        def simulate(shape, sc):
+            asked, got, err, prev = [], [], None, None
+            for k in K:
+                st = shape[group[k]]
+                if st["guard"] == "GNone":
+                    got.append(k)
+                    prev = k
+                    continue
+                t = k if st["same"] else (prev if prev is not None else k)
+                asked.append(t)
+                v = sc.get(t, True)
+                if v == "raise":
+                    err = "Boom"
+                    break
+                if v:
+                    got.append(k)
+                elif st["stops"]:
+                    break
+                prev = k
+            return asked, got, err
+
+        site_space = [dict(guard="GNone", same=True, stops=False)] + [
+            dict(guard="GSelOrMatch", same=sm, stops=sp) for sm in (True, False) for sp in (False, True)]
+        fits = []
+        for rs in site_space:
+            for ps in (site_space if plain else [None]):
+                shape = dict(record=rs, plain=ps)
+                if all(simulate(shape, sc) == ([keyfn(r) for r in asked], [keyfn(r) for r in got], err) for sc, asked, got, err in observed):
+                    fits.append(shape)
+        if len(fits) != 1:
+            sc, asked, got, err = observed[3]
+            raise Unsupported("%s probe: the filter behaviour fits %d loop shapes (e.g. non-match in the middle: asked %s, yielded %s, "
+                              "error %s)" % (short, len(fits), [keyfn(r) for r in asked], [keyfn(r) for r in got], err))
+        shape = fits[0]
+        # the yielded objects are the very objects that were tested
+        for sc, asked, got, err in observed:
+            by_key = {keyfn(r): r for r in asked}
+            for r in got:
+                st = shape[group[keyfn(r)]]
+                if st["guard"] == "GSelOrMatch" and st["same"] and by_key.get(keyfn(r)) is not r:
+                    raise Unsupported("%s probe: a yielded object is not the object that was tested" % short)
+        return dict(on_record=shape["record"], on_plain=shape["plain"])
+    finally:
+        shutil.rmtree(workdir, ignore_errors=True)
+
+
+def reader_shape(short, fn):
+    """the observed shape; the source shape is the cross-check.  -> (Coq term, note or None)"""
+    ob = observe_reader(short)
+    note = None
+    try:
+        af = _ast_reader_shape(short, fn)
+    except Hazard:
+        raise
+    except Unsupported as e:
+        af = None
+        note = "shape of %s not recognised (%s): observed filter behaviour on the probe input used" % (fn.__qualname__, e)
+        # what the probes cannot clear: an exit from the loop that the recogniser could not attribute to a guard
+        node = _fdef(fn)
+        exits = [n for n in ast.walk(node) if isinstance(n, (ast.Break, ast.Return))]
+        if exits and not ob["on_record"]["stops"]:
+            raise Hazard("`%s` in the reader loop %s, and its shape is not recognised" % (type(exits[0]).__name__.lower(), _where(fn, exits[0])))
+    if af is not None and af != ob:
+        if True:
+            raise Unsupported("%s: the source shape %s contradicts the observed behaviour %s" % (fn.__qualname__, af, ob))
+    term = "{| on_record := %s; on_plain := %s |}" % (
+        _site_term(ob["on_record"]), ("Some " + _site_term(ob["on_plain"])) if ob["on_plain"] else "None")
+    return term, note
 
 
 # ------------------------------------------------------------------------------------------
@@ -1018,7 +1232,10 @@ def gen_filter():
         cls = getattr(mod, clsname)
         if "__iter__" not in cls.__dict__:
             raise Unsupported("%s does not define __iter__ itself" % clsname)
-        out += "Definition shape_%s : reader_shape :=\n  %s.\n" % (short, reader_shape(short, cls.__dict__["__iter__"]))
+        term, note = reader_shape(short, cls.__dict__["__iter__"])
+        if note:
+            out += "(* note: %s *)\n" % note.replace("*)", "* )").replace("(*", "( *")
+        out += "Definition shape_%s : reader_shape :=\n  %s.\n" % (short, term)
     out += "\nDefinition shape_of (k : reader_kind) : reader_shape :=\n  match k with %s end.\n" % " | ".join(
         "%s => shape_%s" % (kname, short) for short, kname, _, _ in READERS)
     out += ("\nDefinition iter_reader {R S : Type} (match_step : S -> R -> S * option bool) (k : reader_kind) (sel : option S)\n"
